@@ -276,7 +276,8 @@ class XMLResourceLoader:
                 else:
                     yield event, node  # comment or pi node
 
-        except SyntaxError as err:
+        except (SyntaxError, LookupError, ValueError) as err:
+            # also an unknown or unsupported encoding named by the XML declaration
             raise XMLResourceParseError("invalid XML syntax: {}".format(err)) from err
         finally:
             self._lazy_lock.release()
@@ -327,7 +328,8 @@ class XMLResourceLoader:
                     if end_ns:
                         nsmap_stack.pop()
                         end_ns = False
-        except SyntaxError as err:
+        except (SyntaxError, LookupError, ValueError) as err:
+            # also an unknown or unsupported encoding named by the XML declaration
             raise XMLResourceParseError("invalid XML syntax: {}".format(err)) from err
 
     def _clear(self, elem: ElementType,
